@@ -16,6 +16,7 @@ import (
 	"github.com/openconfig/goyang/pkg/yang"
 	"verif/mc/core"
 	"verif/mc/dump"
+	"verif/mc/props/scalekit"
 )
 
 const baseText = `module a { namespace "urn:a"; prefix a;
@@ -71,7 +72,8 @@ type Input struct {
 	// Rev: every deviating module carries a revision (it is then registered under two keys), and
 	// next to each one a module is loaded whose name extends the deviating module's name with "-x"
 	// (it sorts between those two keys)
-	Rev bool `json:"revisions_and_neighbours,omitempty"`
+	Rev   bool           `json:"revisions_and_neighbours,omitempty"`
+	Scale *scalekit.Case `json:"scale,omitempty"`
 }
 
 // path spells a target as an absolute schema path: steps are in module a unless they say g:.
@@ -416,7 +418,9 @@ func goneAbove(want map[string]*node, t string) bool {
 
 // implicit: the input and output nodes of an rpc exist whether or not they are written (RFC 7950
 // 7.14), so removing one empties it and a later deviation still finds it.
-func implicit(t string) bool { return strings.HasSuffix(t, "/input") || strings.HasSuffix(t, "/output") }
+func implicit(t string) bool {
+	return strings.HasSuffix(t, "/input") || strings.HasSuffix(t, "/output")
+}
 
 // check accepts either order of application when several modules deviate (the statement fixes the
 // order inside one deviation only; which module goes first is not claimed - that the choice is the
@@ -625,6 +629,7 @@ func shards(tier string) []string {
 	for ti := range tripleTargets {
 		out = append(out, fmt.Sprintf("aba/%d", ti))
 	}
+	out = append(out, scalekit.ShardNames()...)
 	return append(out, "two-modules/0", "two-modules/1", "two-modules/2", "two-modules/3")
 }
 
@@ -635,7 +640,11 @@ var relDeviates = []deviate{{Kind: "not-supported"}, {"replace", []prop{{"config
 var tripleTargets = []string{"l", "ll", "u1/gll", "ch", "c/cc/y"}
 
 func run(c *core.Ctx) {
-	c.Res.Bound = fmt.Sprintf("%d targets (leaf with default and units, plain leaf, mandatory leaf, bounded leaf-list, list, config-false container, nested leaves, choice with default, anydata, leaf / leaf-list / list inside one of two uses of a grouping, rpc input leaf, two missing targets, a leaf, a leaf-list and a nested leaf grafted by another module's augments) x every single deviate (not-supported, unknown kind, add/replace/delete x 18 single properties and 5 property pairs) and every ordered pair of deviates (on 5 targets every triple in which a kind comes back after another kind on one property; thorough: every ordered triple of single-property deviates on them), plus the ignore-not-supported option; singles and pairs also with deviating modules that carry a revision and have a neighbour module whose name extends theirs; two deviating modules on the same and on different targets; every ordered pair (one module and two) and triple of deviation statements over %d related targets (a node, its children, its ancestors) x %d deviates", len(targets), len(relTargets), len(relDeviates))
+	if strings.HasPrefix(c.Shard, "scale/") {
+		scalekit.Run(c, c.Shard, scaleCases(c.Tier), checkScale, func(cs scalekit.Case) any { return Input{Scale: &cs} })
+		return
+	}
+	c.Res.Bound = fmt.Sprintf("%d targets (leaf with default and units, plain leaf, mandatory leaf, bounded leaf-list, list, config-false container, nested leaves, choice with default, anydata, leaf / leaf-list / list inside one of two uses of a grouping, rpc input leaf, two missing targets, a leaf, a leaf-list and a nested leaf grafted by another module's augments) x every single deviate (not-supported, unknown kind, add/replace/delete x 18 single properties and 5 property pairs) and every ordered pair of deviates (on 5 targets every triple in which a kind comes back after another kind on one property; thorough: every ordered triple of single-property deviates on them), plus the ignore-not-supported option; singles and pairs also with deviating modules that carry a revision and have a neighbour module whose name extends theirs; two deviating modules on the same and on different targets; scale: three deviations on targets 0..40 (70) containers deep; every ordered pair (one module and two) and triple of deviation statements over %d related targets (a node, its children, its ancestors) x %d deviates", len(targets), len(relTargets), len(relDeviates))
 	ds := deviates()
 	n := 0
 	var one func(in Input)
@@ -814,6 +823,10 @@ func replay(tier string, raw json.RawMessage) (bool, string, string) {
 	var in Input
 	if err := json.Unmarshal(raw, &in); err != nil {
 		return false, "", err.Error()
+	}
+	if in.Scale != nil {
+		v := checkScale(*in.Scale)
+		return v.Fp != "", "scale:" + v.Fp, fmt.Sprintf("expected %s\nobserved %s", v.Exp, v.Obs)
 	}
 	f, _ := check(in)
 	if f == nil {
